@@ -143,12 +143,12 @@ func run(c *common.Ctx) *common.Result {
 }
 
 func record(res *common.Result, col *collector, part string, s spec, v verdict) {
-	res.Add("evaluations", 1)
-	res.Add("evaluations_"+part, 1)
 	if v.undet {
 		res.Add("undetermined_not_compared_"+part, 1)
 		return
 	}
+	res.Add("evaluations", 1)
+	res.Add("evaluations_"+part, 1)
 	if v.nontrivial {
 		res.Add("nontrivial_"+part, 1)
 	}
@@ -234,7 +234,8 @@ func runA(c *common.Ctx, res *common.Result, col *collector) {
 				s := spec{Part: "A", A: &aSpec{Sig: it.sig, Call: call}}
 				col.add(common.Violation{Class: v.class, Case: s.caseText(), Detail: v.detail, Replay: s})
 			}
-			if i%step == 0 && samples[i] == nil && k == (i*131)%len(it.calls) {
+			// samples: fixed work items; odd ones wait for a call that reached f
+			if i%step == 0 && samples[i] == nil && k >= (i*131)%len(it.calls) && ((i/step)%2 == 0 || se.calls == 1) {
 				samples[i] = map[string]interface{}{"space": "A", "case": aSpec{Sig: it.sig, Call: call}.caseText(), "observed": v.outcome}
 			}
 		}
